@@ -16,8 +16,11 @@ Findings re-established here:
   `lammps_frame_uses_own_box_partial` and, at full strength, for `Variant.repaired` (`pop(0)`), which is what
   /repo does since commit d3f25c6 (the tie now agrees with `repaired` only; the witness lives in corpus/C12).
 * `success_iff_outside` is stated at full strength since `add_to_path` was repaired (f955162).
-* GROMACS hands the order function the file velocity also for backward paths (negated twice):
-  `gromacs_velocity_direction_counterexample` — model level only, NOT tied to the code (no fake gmx).
+* GROMACS hands the order function the file velocity also for backward paths (negated twice:
+  gromacs.py:520 `system.vel *= -1` for `reverse`, then `calculate_order` negates again because
+  `system.vel_rev = reverse`): `gromacs_velocity_direction_counterexample`.  CONFIRMED on the real
+  `GromacsEngine` through fake gmx (tie signature `C12:gromacs:velocity-direction`); every other engine hands
+  over `-v` on backward paths.
 * CP2K never reads a box from the program's output: `cp2k_frame_uses_own_box_partial` needs a constant box
   (documented NVT-only limitation of the engine).
 -/
@@ -275,7 +278,23 @@ example : ((inproc { demoCfg with rev := true } 2 (fun i => ⟨6 - i, 100, -1⟩
     = ((inproc { demoCfg with rev := false } 2 (fun i => ⟨i, 100, 1⟩) true).es.take 4).reverse.map (·.order) := by
   decide +kernel
 
-/-! ### GROMACS (model level only — not tied to the code) -/
+/-! ### GROMACS (`gmxRun`: the consumer loop; `gmxExt`: with `GromacsRunner` at tick level, tied through fake gmx) -/
+
+/-- **GROMACS through `GromacsRunner`, every schedule, exit code, `need0`**: the path's `k`-th frame is the `k`-th
+    frame mdrun wrote — index, own coordinates, own box — and the velocity handed to the order function is
+    `gmxVelSeen` (the file velocity, see below). -/
+theorem gromacs_runner_frames_in_order_once (c : Cfg) (sched : Sched) (code : Int) (need0 : Nat)
+    (frames : List Frame) (fuel : Nat) (k : Nat) (hk : k < (gmxExt c sched code need0 frames fuel).es.length) :
+    ∃ f, frames[k]? = some f ∧ (gmxExt c sched code need0 frames fuel).es[k] = gmxEntry c k f :=
+  gmxExt_rec c sched code need0 frames fuel k hk
+
+/-- backward run, one frame per poll, mdrun ends with code 0 at tick 30: box of each frame is its own, the
+    velocities 5, -6, 7 of the file reach the order function unchanged although `vel_rev = true` -/
+example : (gmxExt { demoCfg with rev := true } (demoSched (fun t => t / 3) 30) 0 1
+      [⟨1, 10, 5⟩, ⟨2, 12, -6⟩, ⟨9, 20, 7⟩] 60).es.map (fun e => (e.idx, e.bid, e.vel, e.order))
+    = [(0, 10, 5, 1), (1, 12, -6, 2), (2, 20, 7, 9)] := by
+  decide +kernel
+
 
 /-- GROMACS loop: frames in order, each once, with their own coordinates and box -/
 theorem gromacs_frames_in_order_once (c : Cfg) (frames : List Frame) (k : Nat)
